@@ -60,6 +60,15 @@ impl Visitor<StatementPos> for InstructionGenerator {
                 self.push(Instruction::Label(name), pos);
             }
             Statement::GoTo(name) => {
+                // leave the register frames of the FOR loops that the jump leaves behind
+                let target_for_depth = self
+                    .label_for_depths
+                    .get(&name)
+                    .copied()
+                    .unwrap_or(self.for_depth);
+                for _ in target_for_depth..self.for_depth {
+                    self.push(Instruction::PopRegisters, pos);
+                }
                 self.push(Instruction::Jump(AddressOrLabel::Unresolved(name)), pos);
             }
             Statement::GoSub(label) => {
